@@ -4,6 +4,7 @@ Each entry is an *assumption* (trusted base) and is listed mechanically in evide
 Hooks: the engine calls lib.<hook>(interp, ...) which tries each registered handler in turn.
 """
 import ast
+import builtins
 import z3
 from ..values import *  # noqa
 from .. import values as V
@@ -517,7 +518,7 @@ def comprehension(i, node, fr, kind):
     gens = node.generators
     out = []
     sub = Frame(fr.module, fr.fn_node, fr.qualname, dict(fr.locals), fr.depth, fr.cls)
-    sub.closure_env = getattr(fr, "closure_env", None)
+    sub.closure_env = builtins.getattr(fr, "closure_env", None)
     sub.loop_keys = fr.loop_keys
 
     def rec(gi):
@@ -548,3 +549,4 @@ def comprehension(i, node, fr, kind):
 
 from . import rng  # noqa  (registers numpy.random models)
 from . import misc  # noqa
+from . import maps  # noqa
